@@ -169,6 +169,12 @@ pub fn run(ctx: &Ctx) -> i32 {
     });
     stats.merge(s2);
     viol.extend(v2);
+    crate::fuzzrun::golden("srv_sim", &mut stats, &mut viol);
+    if ctx.tier == vcommon::ev::Tier::Thorough {
+        std::env::set_var("VERIF_SRV_LANES", "3,4,7");
+        let seeds: Vec<Vec<u8>> = { let mut v = Vec::new(); for l in [3u8, 4, 7] { for i in 0..24u8 { let mut s = vec![l as u8]; s.extend((0..(16 + i as usize * 9)).map(|k| (k as u8).wrapping_mul(37).wrapping_add(i.wrapping_mul(11)))); v.push(s); } } v };
+        crate::fuzzrun::campaign(ctx, "srv_sim", crate::fuzzrun::fuzz_secs(180), &seeds, &mut stats, &mut viol);
+    }
     Report::new(RULE)
         .assume("the service's stream is a harness-controlled queue: an item exists from the Push step on, the stream ends at the End step; items pushed after End are ignored")
         .assume("as in C08: equality with the model is demanded whenever a connection's delivered bytes end at a frame boundary, a prefix otherwise")
@@ -177,6 +183,9 @@ pub fn run(ctx: &Ctx) -> i32 {
 }
 
 pub fn replay(_lane: &str, case: serde_json::Value) -> CaseResult {
+    if _lane == "fuzz" {
+        return crate::fuzzrun::replay(&case);
+    }
     let sc: Scenario = serde_json::from_value(case).map_err(|e| Fail::new("bad-replay", e.to_string()))?;
     println!("{}", serde_json::to_string_pretty(&sample_of(&sc)).unwrap());
     let trace = run_scenario(&sc);
